@@ -90,7 +90,7 @@ def call_stmt(ret, n, scope, value_args_only=False):
     """SCall for a call of another translated function"""
     g = callee_of(n)
     if g not in CALLABLE: raise Untranslatable("call to " + str(g))
-    args = []; cells = []
+    args = []; cells = []; pre = []; post = []; fieldreads = set()
     for a in n["inner"][1:]:
         u = strip_casts(a)
         if value_args_only and (u.get("kind") == "UnaryOperator" and u.get("opcode") == "&"):
@@ -100,7 +100,16 @@ def call_stmt(ret, n, scope, value_args_only=False):
             if fp.w or fp.io: raise Untranslatable("address of a field reached through side effects")
             # only a callee that takes a void** works on the cell itself (sbdf_alloc); every other pointer-to-pointer parameter is an
             # out-cell handed over by copy-in / copy-out, which the address of a field cannot be
-            if norm_t(qt(unparen(a))) != "void**": raise Untranslatable("the address of a field passed as " + qt(unparen(a)))
+            if norm_t(qt(unparen(a))) != "void**":
+                # g(..., &p->f) with an out-cell parameter: the field is handed over like any other cell, by copy-in / copy-out -
+                # written out here as  $a = p->f;  g(..., &$a);  p->f = $a;  (p itself must not be touched by the call)
+                if not is_pp(qt(unparen(a))): raise Untranslatable("the address of a field passed as " + qt(unparen(a)))
+                tmp = "$a%d" % (len([x for x in EXTRA_LOCALS if x.startswith("$a")]) + 1)
+                EXTRA_LOCALS.add(tmp)
+                pre.append('(SExpr (EAssign "%s" (ECellLoad %s (EConst %d) %s)))' % (tmp, p_, idx, coq_bool(isp)))
+                post.append('(SExpr (ECellStore %s (EConst %d) (EVar "%s")))' % (p_, idx, tmp))
+                fieldreads |= fp.r
+                cells.append(tmp); args.append('(AAddr "%s")' % tmp); continue
             args.append("(AVal (EFieldAddr %s (EConst %d)))" % (p_, idx)); continue
         if u.get("kind") == "UnaryOperator" and u.get("opcode") == "&":
             t = unparen(u["inner"][0])
@@ -118,7 +127,10 @@ def call_stmt(ret, n, scope, value_args_only=False):
         args.append("(AVal %s)" % e)
     if len(set(cells)) != len(cells): raise Untranslatable("one cell passed twice")
     if ret is not None and ret in cells: raise Untranslatable("result stored into a cell that is also passed")
-    return '(SCall %s "%s" [%s])' % ('(Some "%s")' % ret if ret else "None", g, "; ".join(args))
+    if fieldreads & (set(cells) | ({ret} if ret else set())): raise Untranslatable("the struct of a field passed by address is touched by the call")
+    call = '(SCall %s "%s" [%s])' % ('(Some "%s")' % ret if ret else "None", g, "; ".join(args))
+    if pre: return seq(pre + [call] + post)
+    return call
 
 
 def assign_call(n, scope):
